@@ -9,7 +9,7 @@ import srclist
 VERIF = os.path.dirname(os.path.dirname(os.path.abspath(__file__)))
 
 WRAPS = """main open close read write pread pwrite lseek unlink rename ftruncate opendir readdir closedir
-socket socketpair bind listen accept connect getsockname getsockopt setsockopt send sendto recvfrom
+socket socketpair pipe bind listen accept connect getsockname getsockopt setsockopt send sendto recvfrom
 epoll_create epoll_ctl epoll_wait shm_open shm_unlink fork kill waitpid execvp setsid abort
 time nanosleep alarm srand geteuid getuid getpid gethostname sched_getaffinity sched_setaffinity
 _ZNSt6chrono3_V212system_clock3nowEv _ZNSt6chrono3_V212steady_clock3nowEv _ZNSt13random_device9_M_getvalEv
